@@ -189,7 +189,17 @@ func TestC02(t *testing.T) {
 	}
 	t.Run("histories", func(t *testing.T) { runLedgerCases(t, st, "C02", r) })
 }
-func TestC03(t *testing.T) { runLedgerProperty(t, "C03") }
+func TestC03(t *testing.T) {
+	r := lmRules["C03"]
+	st := newStats(t, "C03", r.rule+"; plus a sync clause: a peer's honest stream extended by one further vertex (other parents, sealer and time) that seals a transaction the stream already holds, on the tip / mid-DAG / right behind its parent, loaded by a fresh node which, if it goes into service, must hold every transaction in one vertex only")
+	sim.Chdir(workDir(t))
+	t.Run("sync", func(t *testing.T) {
+		if c03Sync(st) {
+			t.Errorf("C03: a synced ledger holds one transaction in two vertices")
+		}
+	})
+	t.Run("histories", func(t *testing.T) { runLedgerCases(t, st, "C03", r) })
+}
 func TestC06(t *testing.T) {
 	r := lmRules["C06"]
 	st := newStats(t, "C06", r.rule+"; plus, in every second process, balance queries for untouched wallets issued WHILE the real truncate runs (the scenario of c07_race_test.go): the sum over checkpoint + live ancestors is the same before and after the cut, so every answer must equal it")
